@@ -342,6 +342,58 @@ class Drawn:
                 self.unfit = f"node {p} extends beyond the drawn area"
                 return
             self.rect[p] = (x0, y0, ncanv.cols(), ncanv.rows())
+        self.unfit = self._stated_needs()
+
+    def _stated_needs(self):
+        """The sizes and margins a container was *told* to give (given width/height, min_width/min_height,
+        left/right/top/bottom, GridFlow cell width) are needs in the sense of the fit precondition: the
+        area must be large enough for the child as drawn plus the margins, and a given size must have been
+        handed to the child in full.  Judged on sizes only (not on positions), so that a container which
+        has the room but misplaces its child stays in scope."""
+        t = self.tree
+        for p, k in t.kind.items():
+            if p not in self.rect:
+                continue
+            d = desc_at(t.desc, p)
+            _x, _y, w, h = self.rect[p]
+            kid = lambda i: self.rect.get((*p, i))  # noqa: E731
+            if k == "padding":
+                c = kid(0)
+                if w < c[2] + d[4] + d[5]:
+                    return f"padding {p}: {w} columns for a child of {c[2]} plus margins {d[4]}+{d[5]}"
+                if isinstance(d[3], int) and c[2] < d[3]:
+                    return f"padding {p}: given width {d[3]}, child got {c[2]}"
+                if d[6] is not None and c[2] < d[6]:
+                    return f"padding {p}: min_width {d[6]}, child got {c[2]}"
+            elif k == "filler":
+                c = kid(0)
+                if h < c[3] + d[4] + d[5]:
+                    return f"filler {p}: {h} rows for a child of {c[3]} plus margins {d[4]}+{d[5]}"
+                if isinstance(d[3], int) and c[3] < d[3]:
+                    return f"filler {p}: given height {d[3]}, child got {c[3]}"
+                if d[6] is not None and c[3] < d[6]:
+                    return f"filler {p}: min_height {d[6]}, child got {c[3]}"
+            elif k == "overlay":
+                c = kid(0)
+                if w < c[2] + d[7] + d[8] or h < c[3] + d[9] + d[10]:
+                    return f"overlay {p}: {w}x{h} for a top widget of {c[2]}x{c[3]} plus margins"
+                if isinstance(d[4], int) and c[2] < d[4]:
+                    return f"overlay {p}: given width {d[4]}, top widget got {c[2]}"
+                if isinstance(d[6], int) and c[3] < d[6]:
+                    return f"overlay {p}: given height {d[6]}, top widget got {c[3]}"
+            elif k == "pile":
+                for i, (o, _c) in enumerate(d[1]):
+                    if o != "pack" and o[0] == "given" and kid(i)[3] < o[1]:
+                        return f"pile {p}: child {i} given {o[1]} rows, got {kid(i)[3]}"
+            elif k == "columns":
+                for i, c in enumerate(d[1]):
+                    if c[0] != "pack" and c[0][0] == "given" and kid(i)[2] < c[0][1]:
+                        return f"columns {p}: child {i} given {c[0][1]} columns, got {kid(i)[2]}"
+            elif k == "gridflow":
+                for i in range(len(d[1])):
+                    if kid(i)[2] < d[2]:
+                        return f"gridflow {p}: cell width {d[2]}, cell {i} got {kid(i)[2]}"
+        return None
 
     def contains(self, path, col, row):
         x0, y0, c, r = self.rect[path]
